@@ -1058,7 +1058,17 @@ fn record_pairs<S: Shape + Intersect + serde::Serialize>(
             let mut p = Value::Null;
             let mut q = Value::Null;
             let mut nonfinite = false;
-            for (i, mo) in motions().iter().enumerate() {
+            // common motions: the fixed ones, and small shifts along the line of centres and in a
+            // random direction that leave the origin inside one of the bodies, off its centre (an
+            // answer must not depend on where the pair lies relative to the origin)
+            let mut ms = motions();
+            let rdir = rng.gen::<f64>() * 2. * PI;
+            for mag in [0.2 * r, 0.45 * r].iter() {
+                for a in [dir + PI, dir, rdir].iter() {
+                    ms.push(rigid(0., 0, mag * a.cos(), mag * a.sin()));
+                }
+            }
+            for (i, mo) in ms.iter().enumerate() {
                 let a = shape.transform(&Transform2::from(mo * t1));
                 let b = shape.transform(&Transform2::from(mo * t2));
                 if i == 0 {
@@ -1130,7 +1140,7 @@ pub fn pairs_obs(out: &str, thorough: bool, seed: u64) {
         record_aligned(&format!("polygon{}", n), &sh, &mut rng, per * 2, &mut lines);
     }
     record_aligned("kite", &LineShape::from_radial("kite", vec![1., 0.6, 1., 0.6]).unwrap(), &mut rng, per * 2, &mut lines);
-    for rad in [vec![1., 0.6, 1., 0.6], vec![0.8, 1., 0.8, 1.], vec![1., 0.9, 0.8, 0.9, 1., 0.9], vec![1., 0.5, 0.8, 0.3]].iter() {
+    for rad in [vec![1., 0.6, 1., 0.6], vec![0.8, 1., 0.8, 1.], vec![1., 0.9, 0.8, 0.9, 1., 0.9], vec![1., 0.5, 0.8, 0.3], vec![1., 0.6, 0.6, 0.6]].iter() {
         let sh = LineShape::from_radial("radial", rad.clone()).unwrap();
         record_pairs(&format!("radial{:?}", rad), "poly", &sh, &mut rng, per, &mut lines);
     }
